@@ -186,7 +186,20 @@ class Ctx:
             v.__cause__ = e
             return self._on_violation(name, v, case, reraise)
         self.count(name, case, info)
+        self._housekeeping()
         return True
+
+    def _housekeeping(self):
+        """every engine / model builds fresh jitted functions: drop XLA's compilation caches now and then, or long runs exhaust memory"""
+        self._n_cases = getattr(self, "_n_cases", 0) + 1
+        if self._n_cases % 25 == 0 and "jax" in sys.modules:
+            try:
+                import gc
+
+                sys.modules["jax"].clear_caches()
+                gc.collect()
+            except Exception:  # noqa: BLE001
+                pass
 
     def _on_violation(self, name: str, v: Violation, case: Any, reraise: bool) -> bool:
         key = (name, v.signature)
